@@ -10,7 +10,7 @@ FMAX = 1.7976931348623157e308
 INT_TYPES = [t_int((0, 10)), t_int((-5, 5)), t_int((1, 1), (5, 5), (9, 9)), t_int((-3, -1), (2, 4)), t_int((I64_MIN, I64_MAX)), t_int((0, I64_MAX)), t_int((I64_MIN, 0)), t_int((7, 7)),
              t_int((P53 - 1, P53 + 3)), t_int((-100, 100))]
 FLOAT_TYPES = [t_float((0.0, 10.0)), t_float((-1.5, 2.5)), t_float((0.5, 0.5), (2.0, 2.0)), t_float((-FMAX, FMAX)), t_float((0.0, FMAX)), t_float((-10.0, -0.5)), t_float((3.0, 3.0)), t_float((-1e300, 1e300))]
-BOOL_TYPES = [t_bool((False, True)), t_bool((True, True))]
+BOOL_TYPES = [t_bool((False, True)), t_bool((True, True)), t_bool((False, False), (True, True)), t_bool((False, False))]
 
 
 def col(name):
@@ -72,7 +72,7 @@ def atom(rnd, T):
     nums = numeric_cols(T)
     bools = [(n, t) for n, t in T["fields"] if base(t)["t"] == "Boolean"]
     r = rnd.random()
-    if bools and r < 0.1:
+    if bools and r < 0.25:
         return col(rnd.choice(bools)[0])
     if not nums:
         return val(v_bool(True))
